@@ -185,4 +185,5 @@ def main():
 
 
 if __name__ == "__main__":
-    main()
+    from harness.common import run_check
+    run_check("C01", main)
